@@ -51,6 +51,10 @@ SCHEMES = {
     "dna2": ("dna", dna_matrix(2, -1, -3)),
     "dna1": ("dna", dna_matrix(1, -1, -1)),
     "asym": ("dna", asym_matrix()),
+    # non-integer scores ("all scoring matrices"): added by the reviewer after seeded change C18-s1 (score array
+    # allocated with an integer dtype) went unnoticed by the integer-only schemes
+    "frac": ("dna", dna_matrix(2.5, -0.5, -1.5)),
+    "frac2": ("dna", dna_matrix(0.9, -0.9, -0.9)),
     "prot": ("protein", {(a, b): (10 if a == b else -1) for a in PROT for b in PROT}),
 }
 NLETTERS = {"dna": 4, "protein": 21}
@@ -112,6 +116,15 @@ def gen_pairs(tier, seed, local):
             k += 1
     for k in range(1500 if thorough else 150):
         yield [rword(rnd, 3, 4), rword(rnd, 1, 4), "asym", GAPS[k % 3], "func"]
+    # non-integer scoring tables
+    wf = words("ACGT", 1, 3 if thorough else 2)
+    k = 0
+    for x in wf:
+        for y in wf:
+            yield [x, y, ("frac", "frac2")[k % 2], GAPS[k % 3], "func"]
+            k += 1
+    for k in range(3000 if thorough else 300):
+        yield [rword(rnd, 2, 5), rword(rnd, 2, 5), ("frac", "frac2")[k % 2], GAPS_MORE[k % len(GAPS_MORE)], "func"]
     # protein letters
     for k in range(2500 if thorough else 150):
         yield [rword(rnd, 1, 4, "MKVLU"), rword(rnd, 1, 4, "MKVLU"), "prot", GAPS_MORE[k % len(GAPS_MORE)], "func"]
